@@ -220,10 +220,7 @@ impl<'a> YamlEmitter<'a> {
             Yaml::Sequence(ref v) => self.emit_sequence(v),
             Yaml::Mapping(ref h) => self.emit_mapping(h),
             Yaml::Value(Scalar::String(ref v)) => {
-                if self.multiline_strings
-                    && v.contains('\n')
-                    && char_traits::is_valid_literal_block_scalar(v)
-                {
+                if self.use_literal_block(v) {
                     self.emit_literal_block(v)?;
                 } else if need_quotes(v) {
                     escape_str(self.writer, v)?;
@@ -283,6 +280,25 @@ impl<'a> YamlEmitter<'a> {
         }
     }
 
+    /// Whether `v` is written as a literal block scalar: only when `multiline_strings` is set and
+    /// the `|` / `|-` form emitted by [`Self::emit_literal_block`] reads back as exactly `v`.
+    fn use_literal_block(&self, v: &str) -> bool {
+        self.multiline_strings
+            && v.contains('\n')
+            && char_traits::is_valid_literal_block_scalar(v)
+            // Clip/strip chomping can express at most one trailing line break...
+            && !v.ends_with("\n\n")
+            // ... and there must be some content to carry it.
+            && v.bytes().any(|b| b != b'\n')
+            // Without an indentation indicator the first non-empty line sets the indentation.
+            && !v.trim_start_matches('\n').starts_with([' ', '\t'])
+            // At the top level the content is not indented: document markers would end it.
+            && (self.level >= 0
+                || !v
+                    .split('\n')
+                    .any(|l| l.starts_with("---") || l.starts_with("...")))
+    }
+
     fn emit_literal_block(&mut self, v: &str) -> EmitResult {
         let ends_with_newline = v.ends_with('\n');
         if ends_with_newline {
@@ -327,7 +343,12 @@ impl<'a> YamlEmitter<'a> {
         } else {
             self.level += 1;
             for (cnt, (k, v)) in h.iter().enumerate() {
-                let complex_key = matches!(k, Yaml::Mapping(_) | Yaml::Sequence(_));
+                // Collections and block scalars cannot be implicit keys.
+                let complex_key = match k {
+                    Yaml::Mapping(_) | Yaml::Sequence(_) => true,
+                    Yaml::Value(Scalar::String(v)) => self.use_literal_block(v),
+                    _ => false,
+                };
                 if cnt > 0 {
                     writeln!(self.writer)?;
                     self.write_indent()?;
